@@ -625,7 +625,20 @@ func scenInitFails(o *hlib.Out) {
 // before it has finished: Close is held inside controlConn.close because the control connection's
 // heartbeat goroutine is waiting for an OPTIONS answer.
 func scenAddHostDuringClose(o *hlib.Out) {
-	e, err := newSessEnv("add-host-during-close", 2, 1, nil)
+	var heldOptions int32
+	e, err := newSessEnv("add-host-during-close", 2, 1, func(cfg *gocql.ClusterConfig, e *sessEnv) {
+		// installed before the session exists: the very first heartbeat (1 s after connect) is held
+		for _, nd := range e.nodes {
+			nd := nd
+			nd.AddRule(node.Rule{Match: node.MatchOp(node.OpOptions), Do: func(c *node.ServerConn, req *node.Request) {
+				if len(c.Registered()) > 0 {
+					atomic.AddInt32(&heldOptions, 1) // the control connection's heartbeat: never answered
+					return
+				}
+				nd.Default(c, req)
+			}})
+		}
+	})
 	if err != nil {
 		e.v("harness", "", "NewSession: %v", err)
 		emit(o, "session-add-host", false, "", e.viol, e.info)
@@ -633,23 +646,13 @@ func scenAddHostDuringClose(o *hlib.Out) {
 		return
 	}
 	defer e.done()
-	var heldOptions int32
-	for _, nd := range e.nodes {
-		nd := nd
-		nd.AddRule(node.Rule{Match: node.MatchOp(node.OpOptions), Do: func(c *node.ServerConn, req *node.Request) {
-			if len(c.Registered()) > 0 {
-				atomic.AddInt32(&heldOptions, 1) // the control connection's heartbeat: never answered
-				return
-			}
-			nd.Default(c, req)
-		}})
-	}
-	dl := time.Now().Add(3 * time.Second)
+	dl := time.Now().Add(6 * time.Second)
 	for atomic.LoadInt32(&heldOptions) == 0 && time.Now().Before(dl) {
 		time.Sleep(time.Millisecond)
 	}
 	if atomic.LoadInt32(&heldOptions) == 0 {
-		e.v("harness", "", "the control connection sent no heartbeat within 3 s")
+		e.info["skipped"] = "the control connection sent no heartbeat within 6 s"
+		e.closeWatch(30 * time.Second)
 		emit(o, "session-add-host", false, "", e.viol, e.info)
 		return
 	}
@@ -880,6 +883,99 @@ func scenFailedConnects(o *hlib.Out, rng *hlib.Rng, mode string) {
 	emit(o, "session-failed-connect", killed, "", e.viol, e.info)
 }
 
+// S12: Session.Close while the control connection's heartbeat goroutine is parked OUTSIDE its select:
+// the node holds the answer to the heartbeat OPTIONS (rule installed before the session exists,
+// request timeout far above the scenario's duration, the park is confirmed in a goroutine dump).
+// Close must still stop that goroutine: after the answer is let through and Close has returned, no
+// goroutine may be left in controlConn.heartBeat.
+func scenCloseHeartbeatParked(o *hlib.Out) {
+	var mu sync.Mutex
+	var held []func()
+	var heldN int32
+	e, err := newSessEnv("close-heartbeat-parked", 2, 1, func(cfg *gocql.ClusterConfig, e *sessEnv) {
+		cfg.Timeout = 20 * time.Second // the heartbeat waits for its OPTIONS answer for the whole scenario
+		for _, nd := range e.nodes {
+			nd := nd
+			nd.AddRule(node.Rule{Match: node.MatchOp(node.OpOptions), Do: func(c *node.ServerConn, req *node.Request) {
+				if len(c.Registered()) > 0 { // only the control connection registers for events
+					mu.Lock()
+					held = append(held, func() { nd.Default(c, req) })
+					mu.Unlock()
+					atomic.AddInt32(&heldN, 1)
+					return
+				}
+				nd.Default(c, req)
+			}})
+		}
+	})
+	if err != nil {
+		e.v("harness", "", "NewSession: %v", err)
+		emit(o, "session-heartbeat-parked", false, "", e.viol, e.info)
+		e.done()
+		return
+	}
+	defer e.done()
+	parked := false
+	dl := time.Now().Add(8 * time.Second) // the first heartbeat is sent one second after the control connection is up
+	for time.Now().Before(dl) {
+		if atomic.LoadInt32(&heldN) > 0 && waitGoroutine("(*controlConn).writeFrame", 50*time.Millisecond) {
+			parked = true
+			break
+		}
+		time.Sleep(2 * time.Millisecond)
+	}
+	e.info["heartbeat_parked_in_writeFrame"] = parked
+	if !parked {
+		// nothing to judge: report it as such, not as a violation of the property
+		e.info["skipped"] = "the control heartbeat did not get parked within 8 s"
+		e.closeWatch(30 * time.Second)
+		emit(o, "session-heartbeat-parked", false, "", e.viol, e.info)
+		return
+	}
+	cdone := make(chan struct{})
+	go func() { e.safeClose(); close(cdone) }()
+	// Close either waits inside controlConn.close for the heartbeat goroutine, or has gone past it
+	dl = time.Now().Add(5 * time.Second)
+	for time.Now().Before(dl) {
+		select {
+		case <-cdone:
+			dl = time.Now()
+		default:
+			if waitGoroutine("(*controlConn).close", 20*time.Millisecond) {
+				dl = time.Now()
+			}
+		}
+	}
+	mu.Lock()
+	hs := held
+	mu.Unlock()
+	for _, h := range hs {
+		h() // the heartbeat's OPTIONS is answered now
+	}
+	select {
+	case <-cdone:
+	case <-time.After(15 * time.Second):
+		e.v("close-never-returns", "", "Close called while the control heartbeat waited for its OPTIONS answer did not return within 15 s after the answer")
+		emit(o, "session-heartbeat-parked", true, "", e.viol, e.info)
+		return
+	}
+	gone := false
+	dl = time.Now().Add(6 * time.Second)
+	for time.Now().Before(dl) {
+		if n, _ := gocqlGoroutines("(*controlConn).heartBeat"); n == 0 {
+			gone = true
+			break
+		}
+		time.Sleep(5 * time.Millisecond)
+	}
+	if !gone {
+		_, sample := gocqlGoroutines("(*controlConn).heartBeat")
+		e.v("heartbeat-after-close", "", "Close returned but the control connection's heartbeat goroutine is still running 6 s later (it was waiting for an OPTIONS answer when Close was called):\n%s", sample)
+	}
+	e.afterClose()
+	emit(o, "session-heartbeat-parked", true, "", e.viol, e.info)
+}
+
 func runSessions(o *hlib.Out) {
 	rng := o.Rng
 	reps := 1
@@ -903,6 +999,7 @@ func runSessions(o *hlib.Out) {
 		scenEvents(o, rng)
 		scenInitFails(o)
 		scenAddHostDuringClose(o)
+		scenCloseHeartbeatParked(o)
 		scenRemoveEmptyPool(o, false)
 		scenFailedConnects(o, rng, "auth")
 		scenFailedConnects(o, rng, "startup")
